@@ -28,13 +28,20 @@ def ring_cases():
                     seqs, s = [], s0
                     for k in range(f):
                         seqs.append(s); s = nxt(s)
-                    sc = session.Scn(N, slot, blk)
-                    for k, q in enumerate(seqs):
-                        sc.add("raw %x %s" % (((p + k) % N) * slot, hdr(k % 2, q).hex()))
-                    sc.meta = {"N": N, "f": f, "p": p, "seqs": seqs, "kind": "ring"}
-                    sc.meta["start"] = sc.add("start 8 2"); sc.meta["hdrs"] = sc.add("hdrs")
-                    sc.meta["rec"] = sc.add("recover"); sc.meta["hdrs2"] = sc.add("hdrs")
-                    scns.append(sc)
+                    # status of the existing slots: all complete, or some of them still in progress (stale sessions that the
+                    # application status call must abort when it resumes the newest pair)
+                    stales = [set()]
+                    if f >= 2 and s0 in (7, 0xFFFFFFFC):
+                        stales += [{0, 1}, {f - 2, f - 1}, set(range(f))]
+                    for stale in stales:
+                        sc = session.Scn(N, slot, blk)
+                        for k, q in enumerate(seqs):
+                            h = hdr(k % 2, q, ext=0xFFFFFFFF, it=0xFFFFFFFF, bo=0xFFFFFFFF) if k in stale else hdr(k % 2, q)
+                            sc.add("raw %x %s" % (((p + k) % N) * slot, h.hex()))
+                        sc.meta = {"N": N, "f": f, "p": p, "seqs": seqs, "kind": "ring", "stale": sorted(stale)}
+                        sc.meta["start"] = sc.add("start 8 2"); sc.meta["hdrs"] = sc.add("hdrs")
+                        sc.meta["rec"] = sc.add("recover"); sc.meta["hdrs2"] = sc.add("hdrs")
+                        scns.append(sc)
     return scns
 
 
